@@ -169,6 +169,9 @@ func (ex *Exec) vsymCall(st *State, fr *Frame, dst ssa.Value, fn *ssa.Function, 
 		fr.ip++
 		st.thread().blocked = "runblocked"
 		ex.schedule(st)
+	case "vsymPreemptWindow":
+		st.preemptOn = isTrue(args[0].(*Term))
+		ex.ret(fr, dst, nil)
 	case "vsymFireTimers":
 		ex.fireTimers(st)
 		ex.ret(fr, dst, nil)
